@@ -6,6 +6,12 @@ COMMON_TRUST = [
 ]
 CODEC_RULE = "every message type x decoding parameter (Prio3 Count/Sum/Histogram/SumVec with 2-5 aggregators, Poplar1 with several bit lengths incl. 0, Prio2, ping-pong, primitives): honest encodings from real protocol runs, truncations, extensions, single-byte mutations, every alphabet value in first/last byte, all strings of length <= 2-3 over {00,01,7f,80,fe,ff}, header extremes (level 0xFFFF, counts 2^32-1, unknown tags), random strings; non-trivial = every case (each is a decode of a distinct byte string);"
 PROPS = {
+    "C05": {
+        "modules": ["PrioProofs.Props.C05"],
+        "rule": "all circuits (Count, Sum/Average at bit-width edges, Histogram with dividing / non-dividing / oversize chunk lengths, SumVec, MultihotCountVec, L1BoundSum) x valid encodings and invalid vectors (non-bits, wrong weight, inconsistent norm, affine-only near-misses) x randomness (uniform, zeros, ones, repeats, roots of unity of the wire domain) x 1,2,3,5 shares with random and degenerate sharings x every wrong length; byte-exact proofs, verifier messages and decisions; non-trivial = all;",
+        "trusted": COMMON_TRUST,
+        "assumptions": ["soundness is sampled by the oracle (honestly proved invalid inputs and altered gadget-polynomial elements are rejected under uniform randomness); it is not expressed as a probability"],
+    },
     "C06": {
         "modules": ["PrioProofs.Props.C06"],
         "rule": "Poplar1 payloads (pairs of Field64 / Field255) with extreme and random values; bit lengths 1-5 (thorough 1-7): both parties evaluated at every prefix of every length in shuffled order against NoCache, HashMapCache and RingBufferCache of capacity 0,1,2,3,7; bit lengths 8,12,33,64: on-path, diverging-at-random-depth and random prefixes; error arguments; the model recomputes key generation and every evaluation from the recorded extend/convert table; non-trivial = all;",
